@@ -675,13 +675,16 @@ impl Ipv6Extensions {
         let mut route_written = false;
 
         // check if hop by hop header should be written first
+        // (if no hop by hop header is present the value 0 is treated as a
+        // placeholder for the payload, the same way it is done in the loop bellow)
         if IPV6_HOP_BY_HOP == next_header {
-            let header = &self.hop_by_hop_options.as_ref().unwrap();
-            writer
-                .write_all(&header.to_bytes())
-                .map_err(WriteError::Io)?;
-            next_header = header.next_header;
-            needs_write.hop_by_hop_options = false;
+            if let Some(header) = self.hop_by_hop_options.as_ref() {
+                writer
+                    .write_all(&header.to_bytes())
+                    .map_err(WriteError::Io)?;
+                next_header = header.next_header;
+                needs_write.hop_by_hop_options = false;
+            }
         }
 
         loop {
